@@ -88,7 +88,7 @@ Definition dest_eqb (a b : dest) : bool := N.eqb (dest_idx a) (dest_idx b).
 Inductive arm_effect :=
 | ENone
 | EExtraHash     (* extra_hash_files.push(cwd.join(path)) *)
-| ETooHardPP.    (* too_hard_for_preprocessor_cache_mode = -Xpreprocessor / -Wp ? Some(arg) : None *)
+| ETooHardPP.    (* too_hard_for_preprocessor_cache_mode = Some(arg) for -Xpreprocessor / -Wp, unchanged otherwise *)
 
 (* the -Xclang loop *)
 Inductive xdest :=
